@@ -175,9 +175,68 @@ func (x *Exec) callStatic(fn *ssa.Function, args []Val, bindings []Val) Val {
 		x.curPos = saved
 		return r
 	}
+	if stdPureFn(fn) {
+		// a side-effect-free function of the standard library without a declared contract: it writes nothing, its result is
+		// unconstrained (so nothing that depends on its meaning can be proved); assumed panic-free, listed in the evidence
+		x.externSites++
+		x.assumed["STDPURE "+full] = true
+		res := x.freshResult(fn.Signature)
+		if tv, ok := res.(*TupleV); ok {
+			for _, el := range tv.E {
+				x.assumeTypeInv(el, tTrue)
+			}
+		} else if res != nil {
+			x.assumeTypeInv(res, tTrue)
+		}
+		return res
+	}
 	x.undeclared(shortFn(fn))
 	x.havocReachable(args)
 	return x.freshResult(fn.Signature)
+}
+
+// stdPureFn: package-level functions of the standard library that neither write through their arguments nor read the
+// environment. (Methods of Builder/Buffer/Reader/Replacer are not package-level functions and are not included; sort.*,
+// os.*, time.*, rand.*, filepath.Abs/Glob/Walk/EvalSymlinks are deliberately absent.)
+func stdPureFn(fn *ssa.Function) bool {
+	if fn.Signature.Recv() != nil || fn.Pkg == nil {
+		return false
+	}
+	name := fn.Name()
+	if fn.Origin() != nil {
+		name = fn.Origin().Name()
+	}
+	switch fn.Pkg.Pkg.Path() {
+	case "strings", "bytes":
+		switch name {
+		case "NewReader", "NewReplacer", "NewBuffer", "NewBufferString":
+			return false
+		}
+		return true
+	case "strconv", "unicode", "unicode/utf8", "unicode/utf16", "math", "math/bits", "path":
+		return true
+	case "path/filepath":
+		switch name {
+		case "Clean", "Join", "Dir", "Base", "Ext", "IsAbs", "Split", "ToSlash", "FromSlash", "VolumeName", "SplitList", "IsLocal", "Match":
+			return true
+		}
+	case "fmt":
+		switch name {
+		case "Sprintf", "Sprint", "Sprintln", "Errorf":
+			return true
+		}
+	case "errors":
+		switch name {
+		case "New", "Is", "Unwrap", "Join":
+			return true
+		}
+	case "slices", "maps":
+		switch name {
+		case "Contains", "Index", "Equal", "Clone", "Keys", "Values", "IndexFunc", "ContainsFunc":
+			return true
+		}
+	}
+	return false
 }
 
 // havocReachable: an unknown callee may write anything reachable from its
@@ -231,6 +290,18 @@ func (x *Exec) applyContract(c *Contract, fn *ssa.Function, sig *types.Signature
 	}
 	if c.Attrs["trusted"] {
 		x.assumed["TRUSTED "+c.Target] = true
+	}
+	// recursion: a call of the function being verified must decrease its declared measure (lexicographic, bounded below)
+	if fn != nil && fn == x.unit && len(x.entryMeasure) > 0 && !c.IsFType {
+		var now []*Term
+		for _, cl := range c.clauses("decreases") {
+			for _, e := range splitTop(cl.Text, ',') {
+				now = append(now, x.evalInt(env, parseExpr(e, cl.Where)))
+			}
+		}
+		if len(now) > 0 {
+			x.oblige("termination", "recursion/"+detail, clauseProps(c.clauses("decreases")[0], c), lexLess(now, x.entryMeasure), "the measure of the recursive call is smaller than the measure on entry, which is >= 0")
+		}
 	}
 	for _, cl := range c.clauses("requires") {
 		t := x.evalBool(env, cl.expr())
